@@ -1061,10 +1061,8 @@ class TrigInfo:
             if self.state_trigger is not None:
                 self.state_trig_ident = set()
                 if self.state_user_watch:
-                    if isinstance(self.state_user_watch, list):
-                        self.state_trig_ident = set(self.state_user_watch)
-                    else:
-                        self.state_trig_ident = self.state_user_watch
+                    # our own copy: the script may change its list or set later
+                    self.state_trig_ident = set(self.state_user_watch)
                 else:
                     if self.state_trig_eval:
                         self.state_trig_ident = await self.state_trig_eval.get_names()
